@@ -94,7 +94,7 @@ def main():
         for t in G.tokens_for(lang):
             esc = "".join(ch if 32 < ord(ch) < 127 and ch not in '"\\' else "".join("\\x%02x" % b for b in ch.encode("utf-8")) for ch in t)
             f.write('"%s"\n' % esc)
-    argv = [sys.argv[0], "-runs=%d" % runs, "-seed=%d" % seed, "-max_len=%d" % max_len, "-timeout=120", "-rss_limit_mb=4096",
+    argv = [sys.argv[0], "-runs=%d" % runs, "-seed=%d" % seed, "-max_len=%d" % max_len, "-timeout=120", "-rss_limit_mb=4096", "-artifact_prefix=%s/" % scratch,
             "-dict=%s" % dict_path, "-print_final_stats=0", "-verbosity=0", "-close_fd_mask=3", corpus_dir]
     state["runs"] = runs
     flush()
